@@ -32,6 +32,8 @@ PLAN = {
     "C01g": ["C01", "C08", "C15"], "C03g": ["C03", "C08"], "C04g": ["C04", "C06"], "C05g": ["C05", "C06", "C09"], "C06g": ["C06", "C09"],
     "C07g": ["C07", "C14", "C05"], "C09g": ["C09"], "C13g": ["C13", "C12"], "C14g": ["C14", "C05"], "C16g": ["C16"], "C19g": ["C19"],
     "C20g": ["C20", "C06"],
+    "C02h": ["C02", "C16", "C09"], "C08h": ["C08", "C12", "C13"], "C10h": ["C10", "C06"], "C11h": ["C11"], "C12h": ["C12"], "C15h": ["C15"],
+    "C17h": ["C17"], "C18h": ["C18"],
     "C14d": ["C14", "C05"], "C08d": ["C08", "C03"], "C20d": ["C20", "C09"], "C16d": ["C16"],
 }
 
